@@ -62,6 +62,11 @@ def gen_streams(c, valid_only):
     return c.generate("MC_GenAcc", "MC_GenAcc_simvalid.cfg" if valid_only else "MC_GenAcc_sim.cfg", n, 400)
 
 
+def mc_inflate_core(c):
+    for l in ("LZlib", "LStored", "LLong"):
+        c.model_check("MC_InflateCore", "MC_InflateCore_%s.cfg" % l, workers=4)
+
+
 def check_C03(c):
     g = gen_streams(c, True)
     c.scenario("genstreams", extra=["--in", g])
@@ -80,6 +85,7 @@ def check_C04(c):
 
 
 def check_C05(c):
+    mc_inflate_core(c)
     c.scenario("total")
     if thorough(c):
         c.scenario("total", profile="dbg")
@@ -87,16 +93,19 @@ def check_C05(c):
 
 
 def check_C06(c):
+    mc_inflate_core(c)
     c.scenario("trailing")
     return c.finish("model_checking", RULE_DEC, TRUST)
 
 
 def check_C07(c):
+    mc_inflate_core(c)
     c.scenario("schedules")
     return c.finish("model_checking", RULE_DEC, TRUST)
 
 
 def check_C08(c):
+    mc_inflate_core(c)
     c.scenario("window")
     return c.finish("model_checking", RULE_DEC, TRUST)
 
